@@ -657,7 +657,7 @@ def c05f(ctx):
     """zero is a valid address component: no truthiness test on a tile coordinate component"""
     n_funcs = 0
     for qn, fn in sorted(ctx.repo.funcs.items()):
-        if not qn.startswith(SCOPE_F) or qn.endswith('#2'):
+        if not qn.startswith(SCOPE_F) or '#' in qn:
             continue
         defs = Defs(fn.node)
         comp = {}
@@ -779,7 +779,7 @@ def c05i(ctx):
     n = 0
     for rel in mods:
         for fn in sorted(ctx.repo.fns_in(rel + ':'), key=lambda f: f.qn):
-            if fn.qn.endswith('#2'):
+            if '#' in fn.qn:
                 continue
             sites = _sql_sites(fn)
             if not sites:
